@@ -254,19 +254,58 @@ theorem C19_seen_value (p : ReqPath) (k : Kind) (hk : kindOf p = some k) (hc : c
   rw [h]
   cases k <;> simp [background, silent]
 
+/-- The operations that (re)open the listening stream with the caller's context. -/
+def reopens (op : Op) : Bool := op == .reopen || op == .rootsReplace
+
 /-- The handshake value changes only when an operation completes a handshake (turns an un-initialized client into an
-    initialized one), and then becomes that operation's value: a failed `Initialize` — whether its first request was
-    answered with a failure or refused by the before-request function — never leaves its context behind. -/
+    initialized one) or reopens the listening stream, and then becomes that operation's value: a failed `Initialize` —
+    whether its first request was answered with a failure or refused by the before-request function — never leaves
+    its context behind, and neither does a stream the server ended. -/
 theorem C19_handshake_value (cfg : Cfg) (ps : List ReqPath) (c : Client) (st : St) (v : Nat) (op : Op) :
     (emits cfg ps c st v op).2.hsVal = st.hsVal ∨
-      ((emits cfg ps c st v op).2.hsVal = some v ∧ st.initialized = false ∧ (emits cfg ps c st v op).2.initialized = true) := by
-  cases op <;> simp only [emits] <;> (try split) <;> (try split) <;> (try cases c) <;> simp_all [initOk]
+      ((emits cfg ps c st v op).2.hsVal = some v ∧
+        ((st.initialized = false ∧ (emits cfg ps c st v op).2.initialized = true) ∨
+          (reopens op = true ∧ st.initialized = true))) := by
+  cases op <;> simp only [emits, reopens] <;> (try split) <;> (try split) <;> (try split) <;> (try cases c) <;>
+    simp_all [initOk]
 
-/-- A client never becomes un-initialized again, so the handshake value is set at most once per history. -/
+/-- A client never becomes un-initialized again, so the handshake value is set at most once per history by a
+    handshake; afterwards only reopening the listening stream replaces it (by the reopening operation's value). -/
 theorem C19_initialized_stays (cfg : Cfg) (ps : List ReqPath) (c : Client) (st : St) (v : Nat) (op : Op)
     (h : st.initialized = true) :
-    (emits cfg ps c st v op).2.initialized = true ∧ (emits cfg ps c st v op).2.hsVal = st.hsVal := by
-  cases op <;> simp only [emits, h] <;> (try split) <;> (try split) <;> simp_all
+    (emits cfg ps c st v op).2.initialized = true ∧
+      ((emits cfg ps c st v op).2.hsVal = st.hsVal ∨ (reopens op = true ∧ (emits cfg ps c st v op).2.hsVal = some v)) := by
+  cases op <;> simp only [emits, h, reopens] <;> (try split) <;> (try split) <;> (try split) <;> simp_all
+
+/-- A listening stream the server ends — gracefully or by resetting the connection — while the roots provider is
+    still working does not take the context of the answer with it: the answer is still emitted, through the same
+    builder, and for every configuration it is good (configured URL, static headers, session id, handler, the
+    before-request function once with the value the stream was opened with). Afterwards the server has no stream to
+    push on until one is reopened. -/
+theorem C19_answer_survives_stream_end (ps : List ReqPath) (hall : ∀ p ∈ ps, compliant p = true)
+    (cfg : Cfg) (st : St) (v : Nat) (hlive : live .streamable st = true) :
+    (emits cfg ps .streamable st v .rootsEnd).1 = [(.answer, st.issued)] ∧
+      (emits cfg ps .streamable st v .rootsEnd).2.hsVal = st.hsVal ∧
+      live .streamable (emits cfg ps .streamable st v .rootsEnd).2 = false ∧
+      ∀ o ∈ trace cfg ps .streamable st [(.rootsEnd, v)], ∀ k obs seen, o = some (k, obs, seen) →
+        good cfg k obs = true ∧ (cfg.before = true → seen = st.hsVal) := by
+  have he : emits cfg ps .streamable st v .rootsEnd = ([(.answer, st.issued)], { st with gone := true }) := by
+    simp [emits, hlive]
+  refine ⟨by rw [he], by rw [he], by rw [he]; simp [live], ?_⟩
+  intro o ho k obs seen heq
+  refine ⟨C19_every_request_good ps hall cfg .streamable [(.rootsEnd, v)] st o ho k obs seen heq, ?_⟩
+  intro hb
+  simp only [trace, he, List.map_cons, List.map_nil, List.append_nil, List.mem_singleton] at ho
+  subst heq
+  cases hp : pathFor ps .streamable .answer with
+  | none => simp [hp] at ho
+  | some p =>
+    simp only [hp, Option.map_some, Option.some.injEq, Prod.mk.injEq] at ho
+    obtain ⟨hk, hobs, hseen⟩ := ho
+    subst hk
+    have ⟨hkind, hmem⟩ := kindOf_of_pathFor ps .streamable .answer p hp
+    rw [hseen, C19_seen_value p .answer hkind (hall p hmem) cfg hb]
+    simp [silent]
 
 /-- The property for the code as it is: for every configuration, client and call history, every request the
     history emits (through the regenerated request builders) is good. -/
@@ -312,12 +351,111 @@ example :
       [some (.request, some 2), some (.notification, some 2), some (.stream, some 2), some (.answer, some 2),
        some (.delete, some 4)] := by decide
 
+/-! ## the same option given several times -/
+
+private theorem foldl_merge (opts : List Hdr) (m : Hdr) :
+    opts.foldl (applyHdr true) m = opts.reverse.flatten ++ m := by
+  induction opts generalizing m with
+  | nil => simp
+  | cons o rest ih => simp [List.foldl_cons, ih, applyHdr, List.append_assoc]
+
+private theorem lookup_flatten_append (l : List Hdr) (m : Hdr) (k : Text) :
+    (l.flatten ++ m).lookup k = ((l.findSome? (fun o => o.lookup k)).or (m.lookup k)) := by
+  induction l with
+  | nil => simp
+  | cons o rest ih =>
+    simp only [List.flatten_cons, List.append_assoc, List.lookup_append, ih, List.findSome?_cons]
+    cases h : o.lookup k <;> simp
+
+/-- **Repeated `WithHTTPHeaders`.** When both sides of the option merge per key, then for every list of header
+    options, for both clients and for every key: the static header map the transport ends up with binds the key to
+    the value of the LAST option that names it (and binds nothing no option names). -/
+theorem C19_repeated_headers (F : OptFacts) (h1 : F.cfgMerges = true) (h2 : F.optMerges = true) (c : Client)
+    (opts : List Hdr) (k : Text) :
+    (effHeaders F c opts).lookup k = wantHeader opts k := by
+  have hc : cfgHeaders F opts = opts.reverse.flatten := by simp [cfgHeaders, h1, foldl_merge]
+  have hl : (opts.reverse.flatten).lookup k = wantHeader opts k := by
+    have := lookup_flatten_append opts.reverse [] k
+    simpa [wantHeader] using this
+  cases c
+  · simp only [effHeaders, hc, hl]
+  · simp only [effHeaders, hc, h2, foldl_merge, lookup_flatten_append]
+    rw [hl]
+    show (wantHeader opts k).or (wantHeader opts k) = wantHeader opts k
+    cases wantHeader opts k <;> rfl
+  · simp only [effHeaders, hc, hl]
+
+/-- … so every configured static header is there: a header an option sets, and no later option sets again, is in
+    force with exactly that option's values — whatever the other options (before or after) configure. -/
+theorem C19_every_configured_header_present (F : OptFacts) (h1 : F.cfgMerges = true) (h2 : F.optMerges = true)
+    (c : Client) (pre post : List Hdr) (o : Hdr) (k : Text) (vs : List Text)
+    (ho : o.lookup k = some vs) (hpost : ∀ o' ∈ post, o'.lookup k = none) :
+    (effHeaders F c (pre ++ o :: post)).lookup k = some vs := by
+  rw [C19_repeated_headers F h1 h2]
+  simp only [wantHeader, List.reverse_append, List.reverse_cons, List.append_assoc, List.findSome?_append]
+  have hnone : List.findSome? (fun o => List.lookup k o) post.reverse = none := by
+    rw [List.findSome?_eq_none_iff]
+    intro o' ho'
+    exact hpost o' (List.mem_reverse.mp ho')
+  simp [hnone, ho]
+
+/-- Today's source is in that region: `WithHTTPHeaders` merges per key into `transportConfig.httpHeaders` and appends
+    a transport option that merges per key; both transports start from the configuration's map, the legacy client's
+    configuration being the options applied in the order given. -/
+theorem C19_headers_options_merge :
+    Mcp.Gen.ReqPaths.optFacts = { cfgMerges := true, optMerges := true } ∧ Mcp.Gen.ReqPaths.headersFromConfig = true := by
+  decide
+
+theorem C19_repeated_headers_generated (c : Client) (opts : List Hdr) (k : Text) :
+    (effHeaders Mcp.Gen.ReqPaths.optFacts c opts).lookup k = wantHeader opts k :=
+  C19_repeated_headers _ (by decide) (by decide) c opts k
+
+/-- `WithHTTPBeforeRequest`, `WithHTTPReqHandler` and `WithClientPath` are plain assignments: given several times,
+    the last one is in force (for every request: there is one function / handler / path per client). -/
+theorem C19_assign_options_last_wins :
+    Mcp.Gen.ReqPaths.lastWinsOptions =
+      [(t!"WithClientPath", t!"assign"), (t!"WithHTTPBeforeRequest", t!"assign"), (t!"WithHTTPReqHandler", t!"assign")] := by
+  decide
+
+/-- Outside the region the property fails: if `WithHTTPHeaders` REPLACES `transportConfig.httpHeaders` (while the
+    replayed transport option still merges), the legacy SSE client given two options with different keys keeps only
+    the second option's header — the Streamable client still has both. -/
+theorem C19_replacing_headers_loses_witness :
+    let F : OptFacts := { cfgMerges := false, optMerges := true }
+    let opts : List Hdr := [[(t!"X-A", [t!"a"])], [(t!"X-B", [t!"b"])]]
+    (effHeaders F .sse opts).lookup t!"X-A" = none ∧ wantHeader opts t!"X-A" = some [t!"a"] ∧
+      (effHeaders F .sse opts).lookup t!"X-B" = some [t!"b"] ∧
+      (effHeaders F .streamable opts).lookup t!"X-A" = some [t!"a"] := by
+  decide
+
+/-- non-vacuity: three options — a key set twice (the later value wins), overlapping and disjoint keys. -/
+example :
+    let opts : List Hdr := [[(t!"X-A", [t!"a1"]), (t!"X-B", [t!"b1", t!"b2"])], [(t!"X-C", [t!"c"])], [(t!"X-A", [t!"a2"])]]
+    canonHeaders (effHeaders Mcp.Gen.ReqPaths.optFacts .sse opts) =
+        [(t!"X-A", [t!"a2"]), (t!"X-C", [t!"c"]), (t!"X-B", [t!"b1", t!"b2"])] ∧
+      canonHeaders (effHeaders Mcp.Gen.ReqPaths.optFacts .streamable opts) =
+        canonHeaders (effHeaders Mcp.Gen.ReqPaths.optFacts .sse opts) ∧
+      hdrKeys opts = [t!"X-A", t!"X-B", t!"X-C"] := by
+  decide
+
+/-- non-vacuity of the stream-end theorem and of the reopening operations: the server ends the stream under a slow
+    roots provider (the answer still sees the handshake's value 1), a request pushed afterwards has no stream, the
+    stream is reopened with value 4 (answers now see 4), and replaced under a slow provider with value 6. -/
+example :
+    let cfg : Cfg := ⟨false, true, false, false, false⟩
+    (trace cfg Mcp.Gen.ReqPaths.paths .streamable {}
+        [(.initialize, 1), (.rootsEnd, 2), (.roots, 3), (.reopen, 4), (.roots, 5), (.rootsReplace, 6), (.rootsEnd, 7)]).map
+        (fun o => o.map (fun x => (x.1, x.2.2))) =
+      [some (.request, some 1), some (.notification, some 1), some (.stream, some 1), some (.answer, some 1),
+       some (.stream, some 4), some (.answer, some 4), some (.stream, some 6), some (.answer, some 6),
+       some (.answer, some 6)] := by decide
+
 /-! ## the bad region (pre-fix table) at the level of observations -/
 
 /-- D31: with a custom path and a before-request function configured, the Streamable client's answer to a
     server-issued `roots/list` missed the path and never reached the function; the DELETE bypassed the custom handler. -/
 theorem C19_prefix_answer_delete_counterexample :
-    (trace ⟨true, true, true, true, true⟩ preFixPaths .streamable ⟨true, true, false, some 1⟩ [(.roots, 2), (.terminate, 3)]).map
+    (trace ⟨true, true, true, true, true⟩ preFixPaths .streamable ⟨true, true, false, some 1, false⟩ [(.roots, 2), (.terminate, 3)]).map
         (fun o => o.map (fun x => (x.1, x.2.1))) =
       [ some (.answer, ⟨t!"sendResponseToServer", .post, false, true, true, .custom, true, 0, .unseen⟩),
         some (.delete, ⟨t!"terminateSession", .delete, true, true, true, .bare, true, 0, .unseen⟩) ] := by
